@@ -547,6 +547,129 @@ def check_backoff(pid, tier, seed):
                     "TLC as the judge of MonC19 and Backoff.tla"], time.time() - t0, violations, {"log": log})
     return 1 if violations else 0
 
+
+# ------------------------------------------------------------------------------------------------
+# codec (C02 outbound half, C03): Codec.tla / CodecCases.tla / DecoderFraming.tla + the crate's encoder and decoder
+
+def tlc_cases(workdir, direction):
+    """TLC walks the case analysis of Codec.tla; returns (path of the exported cases, TLC result)."""
+    cfg = 'SPECIFICATION Spec\nCONSTANT Dir = "%s"\nINVARIANT RemainingLengthRight\nCHECK_DEADLOCK FALSE\n' % direction
+    res = run_tlc(os.path.join(workdir, "cases-" + direction), SPEC, "CodecCases", cfg, workers=1, timeout=900)
+    if not res["ok"]:
+        sys.stdout.write(res["text"][-3000:])
+        raise ToolError("CodecCases.tla (%s) failed" % direction)
+    path = os.path.join(workdir, "cases_%s.jsonl" % direction)
+    with open(path, "w") as f:
+        for _, c in tla_json_lines(res["text"], "CASE"):
+            f.write(json.dumps(c) + "\n")
+    return path, res
+
+
+def tlc_framing(workdir, tier):
+    cfg = ("SPECIFICATION Spec\nCONSTANTS\n  Frames <- Frames_Small\n  MaxFrames = %d\n  MaxSizes = {0, 4, 5}\n  ExportEvery = %d\nVIEW View\n"
+           "INVARIANT ChunkingInvariant\nINVARIANT OversizeAtHeader\nINVARIANT Prompt\nINVARIANT Export\nCHECK_DEADLOCK FALSE\n") % (3 if tier == "thorough" else 2, 400 if tier == "thorough" else 40)
+    res = run_tlc(os.path.join(workdir, "framing"), SPEC, "DecoderFraming", cfg, workers=TLC_WORKERS, timeout=3000, java_opts="-Xss1g -Xmx12g")
+    if not res["ok"]:
+        sys.stdout.write(res["text"][-3000:])
+        raise ToolError("DecoderFraming.tla violates a C03 invariant: the specification and the code must be re-examined")
+    path = os.path.join(workdir, "framing.jsonl")
+    with open(path, "w") as f:
+        for _, c in tla_json_lines(res["text"], "SCRIPT"):
+            f.write(json.dumps(c) + "\n")
+    return path, res
+
+
+def codec_run(args, workdir, name):
+    trace = os.path.join(workdir, name + ".ndjson")
+    rc, out, dt = sh([os.path.join(BIN, "codec_run")] + args + ["--out", trace], cwd=workdir, timeout=3000)
+    if rc != 0:
+        sys.stdout.write(out[-3000:])
+        raise ToolError("codec_run failed")
+    stats = json.loads(out.strip().splitlines()[-1])
+    stats["wall_s"] = round(dt, 1)
+    if stats["reference_disagreements"]:
+        for d in stats["reference_disagreements"][:5]:
+            print("TOOL-ERROR: " + d)
+        raise ToolError("the harness's reference codec disagrees with Codec.tla: one of the two misreads the specification")
+    return trace, stats
+
+
+def report_codec(pid, breaches, trace, known):
+    """Breaches of a codec trace -> KNOWN-FINDING / VIOLATION lines (the replay file is the case itself)."""
+    runs, src = load_trace_index(trace) if breaches else ({}, {})
+    violations, seen = 0, []
+    os.makedirs(os.path.join(WORK, "replay"), exist_ok=True)
+    for b in breaches:
+        ev = runs.get(b["run"], {}).get(b["seq"])
+        k = match_known(known, pid, b["rule"], ev, "codec")
+        if k:
+            print("KNOWN-FINDING: property=%s %s" % (pid, k["what"]))
+            seen.append(k["rule"])
+            continue
+        violations += 1
+        path = os.path.join(WORK, "replay", "%s-%s-case%d.json" % (pid, b["rule"], b["seq"]))
+        with open(path, "w") as f:
+            json.dump({"property": pid, "rule": b["rule"], "event": ev, "codec": True}, f)
+        if violations <= 5:
+            print("VIOLATION property=%s replay=%s   (rule %s, case %s: %s)" % (pid, path, b["rule"], (ev or {}).get("label"), (ev or {}).get("diff")))
+    return violations, seen
+
+
+def codec_half(pid, tier, seed, workdir, known):
+    """The codec-level part of C02 (outbound) or C03 (inbound).  Returns (violations, known seen, coverage additions)."""
+    big = tier == "thorough"
+    cov = {}
+    if pid == "C03":
+        cases, r1 = tlc_cases(workdir, "in")
+        framing, r2 = tlc_framing(workdir, tier)
+        trace, stats = codec_run(["--cases-in", cases, "--framing", framing, "--mutate", str(60000 if big else 4000), "--random", str(4000 if big else 400), "--seed", str(seed)], workdir, "codec-in")
+        states, trans = r1.get("distinct", 0) + r2.get("distinct", 0), r1.get("generated", 0) + r2.get("generated", 0)
+        cov["model_checking"] = {"instances": [
+            {"name": "CodecCases.tla Dir=in: case analysis of the server-to-client layouts and tables (one state per case)", "distinct": r1.get("distinct", 0), "wall_s": r1["wall_s"]},
+            {"name": "DecoderFraming.tla: every stream of the frame alphabet x every partition into chunks; ChunkingInvariant, OversizeAtHeader, Prompt", "distinct": r2.get("distinct", 0), "generated": r2.get("generated", 0), "wall_s": r2["wall_s"]}]}
+    else:
+        cases, r1 = tlc_cases(workdir, "out")
+        trace, stats = codec_run(["--cases-out", cases, "--seed", str(seed)], workdir, "codec-out")
+        states, trans = r1.get("distinct", 0), r1.get("generated", 0)
+        cov["model_checking"] = {"instances": [{"name": "CodecCases.tla Dir=out: case analysis of the client-to-server layouts (one state per case)", "distinct": r1.get("distinct", 0), "wall_s": r1["wall_s"]}]}
+    verdict, tlc = trace_check(trace, [pid], os.path.join(workdir, "tc-codec"))
+    breaches = list(verdict["errs"][pid])
+    violations, seen = report_codec(pid, breaches, trace, known)
+    for d in stats.get("framing_drift", [])[:5]:
+        print("DRIFT property=%s the decoder no longer behaves as DecoderFraming.tla: %s" % (pid, d[:300]))
+    samples = []
+    with open(trace) as f:
+        lines = [json.loads(l) for l in f]
+    for e in lines:
+        if e["ev"] in ("Dec", "Enc") and len(samples) < 3 and e["seq"] % 97 == 5:
+            samples.append({k: e[k] for k in e if k not in ("run",)})
+    cov.update({"states": states, "transitions": trans, "cases_from_tlc": stats["cases"], "codec_events": verdict["events"], "streams": stats.get("streams", 0), "mutations": stats.get("mutations", 0),
+                "framing_behaviours_replayed": stats.get("framing", 0), "framing_drift": len(stats.get("framing_drift", [])), "inexpressible_through_public_api": stats.get("inexpressible", 0),
+                "breaches": len(breaches), "samples": samples or [lines[1]]})
+    return violations, seen, cov
+
+
+def check_codec(pid, tier, seed):
+    """C03: decided by Codec.tla / DecoderFraming.tla and the crate's decoder."""
+    t0 = time.time()
+    log = {}
+    workdir = os.path.join(WORK, pid)
+    os.makedirs(workdir, exist_ok=True)
+    build_harness(log)
+    known = load_known()
+    violations, seen, cov = codec_half(pid, tier, seed, workdir, known)
+    coverage = {"states": max(1, cov["states"]), "transitions": max(1, cov["transitions"]), "traces_validated_against_impl": cov["codec_events"] - 1, "samples": cov["samples"],
+                "exhaustive": True, "known_findings_seen": sorted(set(seen))}
+    coverage.update({k: v for k, v in cov.items() if k not in ("states", "transitions", "samples")})
+    coverage["explanation"] = ("TLC enumerated the case analysis of Codec.tla (layouts, property and reason-code tables transcribed from the OASIS text) and checked DecoderFraming.tla over every stream of its "
+                               "frame alphabet and every partition into chunks; every enumerated byte string, %d multi-packet streams, %d DecoderFraming behaviours and %d byte-level mutations went through "
+                               "the crate's decoder under whole / byte-by-byte / every two-way split / random chunkings, and MonC03 judged the outcomes") % (cov["streams"], cov["framing_behaviours_replayed"], cov["mutations"])
+    write_evidence(pid, tier, seed, coverage,
+                   ["Codec.tla as the reading of the OASIS specifications (the harness's reference codec is checked against it on every case)",
+                    "content fidelity for arbitrary UTF-8 / binary content and 'never panics' beyond the enumerated classes are sampled (seeded mutations), not enumerated",
+                    "TLC as the judge of MonC03, Codec.tla and DecoderFraming.tla"], time.time() - t0, violations, {"log": log})
+    return 1 if violations else 0
+
 # ------------------------------------------------------------------------------------------------
 # engine properties
 
@@ -629,6 +752,12 @@ def check_engine_property(pid, tier, seed):
         details["escalation"] = {"runs": stats2["runs"], "events": details2["events"], "breaches": details2["breaches"]}
         stats["runs"] += stats2["runs"]
 
+    codec_cov = None
+    if pid == "C02":
+        v3, seen3, codec_cov = codec_half(pid, tier, seed, workdir, known)
+        violations += v3
+        seen += seen3
+
     samples = []
     with open(scripts) as f:
         lines = f.readlines()
@@ -654,6 +783,10 @@ def check_engine_property(pid, tier, seed):
                        % (pid, mc["distinct"], "yes" if not mc["cex"] else "NO", stats["runs"], details["events"],
                           details["conformance"]["calls_replayed"], details["conformance"]["states_compared"], details["conformance"]["drift"]),
     }
+    if codec_cov:
+        coverage["codec"] = {k: v for k, v in codec_cov.items() if k not in ("states", "transitions")}
+        coverage["states"] += codec_cov["states"]; coverage["transitions"] += codec_cov["transitions"]
+        coverage["traces_validated_against_impl"] += codec_cov["codec_events"] - 1
     write_evidence(pid, tier, seed, coverage,
                    ["the reference codec and reference broker of the harness (qualified against Codec.tla by the C02/C03 checks)",
                     "TLC as the judge of MonBase/Mon%s, Engine.tla and EngineTrace.tla" % pid,
@@ -665,6 +798,14 @@ def check_engine_property(pid, tier, seed):
 
 def replay(pid, path):
     r = json.load(open(path))
+    if r.get("codec"):
+        # a codec case is identified by its label; re-run the codec half and report whether that case still breaches
+        workdir = os.path.join(WORK, pid, "replay")
+        os.makedirs(workdir, exist_ok=True)
+        build_harness({})
+        v, seen, cov = codec_half(pid, "quick", int(os.environ.get("VERIF_SEED", "1")), workdir, load_known())
+        print(json.dumps({"property": pid, "case": (r.get("event") or {}).get("label"), "violations_now": v}))
+        return 1 if v else 0
     workdir = os.path.join(WORK, pid, "replay")
     os.makedirs(workdir, exist_ok=True)
     log = {}
@@ -696,6 +837,8 @@ def main(argv):
             return check_lifecycle(pid, tier, seed)
         if pid == "C19":
             return check_backoff(pid, tier, seed)
+        if pid == "C03":
+            return check_codec(pid, tier, seed)
         print("no check registered for", pid)
         return 2
     except ToolError as e:
